@@ -104,3 +104,76 @@ add("C05", "R-5.4", "rules/check_preprocessor_define.py::CheckPreprocessorDefine
 add("C05", "R-5.4", "rules/check_preprocessor_include.py::CheckPreprocessorInclude.run::while[kinds=MORE_THAN]",
     "infeasible: IsPreprocessorStatement.check_include raises unless _check_path found MORE_THAN (or a STRING, handled by "
     "the other branch)", _include_raises_unless_more_than)
+
+
+# --------------------------------------------------------------------------- C08 R-8.1 (dead emission sites)
+def _check_prefix_dead() -> bool:
+    """new_error("") in CheckOperatorsSpacing.check_prefix sits under check_token(pos, [TAB, SPACE]); its only
+    caller passes the index it has just tested against p_operators, which contains neither TAB nor SPACE."""
+    import ast
+    from .calls import callgraph
+    from .fold import fold_name
+    from .model import walk_fn, text, ancestors
+    prog = _prog()
+    fn = prog.method("CheckOperatorsSpacing", "check_prefix")
+    if fn is None:
+        return False
+    em = [n for n in walk_fn(fn.node) if isinstance(n, ast.Call) and text(n.func) == "context.new_error"
+          and n.args and isinstance(n.args[0], ast.Constant) and n.args[0].value == ""]
+    if len(em) != 1:
+        return False
+    guard = [a for a in ancestors(em[0]) if isinstance(a, ast.If)]
+    if not guard or "context.check_token(pos, ['TAB', 'SPACE'])" not in text(guard[0].test):
+        return False
+    sites = callgraph(prog).sites.get(fn.key, [])
+    if len(sites) != 1:
+        return False
+    call = sites[0].node
+    arg = text(call.args[1]) if len(call.args) > 1 else None
+    g2 = [a for a in ancestors(call) if isinstance(a, ast.If)]
+    if not g2 or text(g2[0].test) != f"context.check_token({arg}, p_operators) is True":
+        return False
+    pops = fold_name("p_operators", fn.mod)
+    return not ({"TAB", "SPACE"} & set(pops))
+
+
+def _expected_brace_dead() -> bool:
+    """CheckBrace runs only after IsBlockStart / IsBlockEnd, both of which matched LBRACE / RBRACE at skip_ws(0)."""
+    from .facts import registry_model
+    from .model import text
+    prog = _prog()
+    rm = registry_model(prog)
+    if not set(rm.live_slots("CheckBrace")) <= {"IsBlockStart", "IsBlockEnd"}:
+        return False
+    for cname, kind in (("IsBlockStart", "LBRACE"), ("IsBlockEnd", "RBRACE")):
+        run = prog.method(cname, "run")
+        body = [s for s in run.node.body if not (hasattr(s, "value") and isinstance(getattr(s, "value", None), __import__("ast").Constant))]
+        if len(body) < 2:
+            return False
+        if not text(body[0]).startswith("i = context.skip_ws(0"):
+            return False
+        if text(body[1]).split(":")[0] != f"if context.check_token(i, '{kind}') is False":
+            return False
+    cb = prog.method("CheckBrace", "run")
+    src = text(cb.node, 2000)
+    return "i = context.skip_ws(i, nl=False)" in src and "if context.check_token(i, ['RBRACE', 'LBRACE']) is False:" in src
+
+
+def _forbidden_in_header_dead() -> bool:
+    """The guard `history[-1] not in allowed_in_header` is false in every live slot of CheckInHeader."""
+    from .facts import registry_model
+    from .fold import fold_name
+    prog = _prog()
+    rm = registry_model(prog)
+    allowed = set(fold_name("allowed_in_header", prog.mod("rules/check_in_header.py")))
+    slots = set(rm.live_slots("CheckInHeader"))
+    return bool(slots) and slots <= allowed
+
+
+add("C08", "R-8.1", "rules/check_operators_spacing.py::CheckOperatorsSpacing.check_prefix::emit[]",
+    "dead site: guard check_token(pos, [TAB, SPACE]) contradicts the caller's check_token(i, p_operators) on the same index",
+    _check_prefix_dead)
+add("C08", "R-8.1", "rules/check_brace.py::CheckBrace.run::emit[EXPECTED_BRACE]",
+    "dead site: both slots of CheckBrace matched LBRACE/RBRACE at the same skip_ws(0) position", _expected_brace_dead)
+add("C08", "R-8.1", "rules/check_in_header.py::CheckInHeader.run::emit[FORBIDDEN_IN_HEADER]",
+    "dead site: every live slot of CheckInHeader is in allowed_in_header", _forbidden_in_header_dead)
